@@ -23,6 +23,8 @@ THEOREMS = [
     'Ndn.C06.tasks_chunks_and_turns_irrelevant', 'Ndn.C06.tasks_agree_with_chunked_machine',
     'Ndn.C06.tasks_never_partial', 'Ndn.C06.tasks_end_mid_packet', 'Ndn.C06.tasks_end_shuts_down',
     'Ndn.C06.tasks_shutdown_guarantee', 'Ndn.C06.tasks_never_withdrawn', 'Ndn.C06.tasks_isolated',
+    'Ndn.C06.tasks_tables_exactly_once', 'Ndn.C06.tasks_last_pass_after_cleanup', 'Ndn.C06.tasks_no_background_error',
+    'Ndn.C06.udp_tasks_exactly_once_in_order', 'Ndn.C06.udp_tasks_no_callback_error', 'Ndn.C06.udp_tasks_isolated',
 ]
 PARTIAL = {}
 TRUSTED = [
@@ -73,8 +75,13 @@ TRUSTED = [
     'asyncio.StreamReader on the virtual loop, ONE loop iteration at a time, and compare with the model after every '
     'iteration and every shutdown(): how many receive steps were entered and how many tasks were created but not yet '
     'entered; at the end the packets entered in order, the tasks never entered, how main_loop ended, face.running, which '
-    'tasks raised, and how many packets had been received when _clean_up ran. The UDP face\'s datagram_received '
-    '(create_task per datagram) is exercised by the udp cases only (no chunking there: one datagram = one task)',
+    'tasks raised, and how many packets had been received when _clean_up ran. The UDP face has its own small machine '
+    '(Ndn.FaceTasks.Udp: datagram_received creates a task per datagram whose Type number can be read and looks at '
+    'nothing else; connection_lost / error_received resolve the close future, the main task\'s wake-up takes its place '
+    'in the ready queue and main_loop cleans up when it runs; udp_tasks_* theorems) tied by `utasks` cases that drive '
+    'the real main_loop over the real UdpFace protocol object behind a stub datagram endpoint, iteration by iteration. '
+    'tasks_no_background_error composes the task layer with receive_bytes_total: with the byte-level reception '
+    'pipeline as the black box no per-packet task ends with an unhandled error in any history',
 ]
 RULE = ('(a) streams of 0..6 packets (types/lengths at the 1/3/5/9-byte TL-number boundaries) plus a proper prefix of '
         'one more, fed to a real StreamReader in chunks (every single cut and sampled/all 2-cuts of streams <= 40 B, random '
@@ -101,7 +108,9 @@ RULE = ('(a) streams of 0..6 packets (types/lengths at the 1/3/5/9-byte TL-numbe
         'pass), then EOF after a turn / EOF in the same pass as the last bytes / connection reset / another transport '
         'error / left open / app.shutdown(), app.shutdown() also at a random instant (between a feed and the reader\'s '
         'pass, in the middle of a packet whose rest arrives later with more packets behind it), 0..2 receive steps that '
-        'raise. non-trivial = a malformed packet met a state '
+        'raise. (f) the same for the UDP face: 1..7 datagrams (packets, empty, truncated inside the Type number, two '
+        'packets in one datagram), 0..2 loop iterations after each, connection_lost and / or app.shutdown() at random '
+        'instants, raising receive steps. non-trivial = a malformed packet met a state '
         'with a pending Interest or handler, or a stream was cut inside a TL number; distinct = distinct cases')
 
 LP = 0x64
@@ -633,6 +642,26 @@ def tasks_cases(rng, pool, short, quick):
         yield {'k': 'tasks', 'fe': ('v2', 'v1')[i % 2], 'raises': raises, 'script': sc}
 
 
+def utasks_cases(rng, pool, short, quick):
+    """(f) the UDP face's task layer: datagrams (packets, empty, truncated inside the Type number, two packets in one
+    datagram), single loop iterations, connection_lost, app.shutdown(), receive steps that raise"""
+    odd = [b'', b'\xfd', b'\xfd\x00', b'\xfe\x00\x00', b'\xff' + b'\x00' * 6, b'\x05', b'\x05\x01\x07\x06\x00']
+    for i in range(40 if quick else 600):
+        sc = []
+        n = 0
+        for _ in range(rng.randint(1, 7)):
+            d = rng.choice(odd) if rng.random() < 0.3 else rng.choice(short if rng.random() < 0.8 else pool)
+            n += 1
+            sc.append(['dgram', d.hex()])
+            sc += [['iter']] * rng.choice([0, 0, 1, 1, 2])
+        for end in rng.sample(['lost', 'shutdown', 'lost', 'none'], rng.choice([0, 1, 1, 2])):
+            if end != 'none':
+                sc.insert(rng.randrange(len(sc) + 1), [end])
+        sc += [['iter']] * rng.choice([0, 1, 3])
+        raises = sorted(set(rng.randrange(n) for _ in range(rng.choice([0, 0, 1, 2]))))
+        yield {'k': 'utasks', 'fe': ('v2', 'v1')[i % 2], 'raises': raises, 'script': sc}
+
+
 def cases(rng, tier):
     quick = tier == 'quick'
     P = base_packets()
@@ -677,6 +706,7 @@ def cases(rng, tier):
     short = [p for p in pool if len(p) <= 12]
     # --- (e) task layer ----------------------------------------------------------------------
     yield from tasks_cases(rng, pool, short, quick)
+    yield from utasks_cases(rng, pool, short, quick)
     # --- (a) streams -------------------------------------------------------------------------
     n_streams = 40 if quick else 400
     for si in range(n_streams):
@@ -818,6 +848,13 @@ def shrink(case):
 
 def _shrink(case):
     k = case['k']
+    if k == 'utasks':
+        sc = case['script']
+        for i in range(len(sc)):
+            yield {**case, 'script': sc[:i] + sc[i + 1:]}
+        if case.get('raises'):
+            yield {**case, 'raises': case['raises'][1:]}
+        return
     if k == 'tasks':
         sc = case['script']
         for i in range(len(sc)):
@@ -1163,6 +1200,136 @@ def run_tasks(case):
                 'running': bool(face.running), 'closed': face.writer.closed if face.writer else -1, 'hung': hung,
                 'errors': [list(e) for e in loop.errors]}
 
+
+def _utasks_plan(case):
+    """the model history for a UDP script.  The translation keeps the loop's ready queue item by item (FIFO): a task
+    created by datagram_received runs in the next iteration (`s1`), the callbacks the transport makes run in the order
+    they were scheduled (`d:`), connection_lost resolves the face's `close` future and the main task's wake-up takes its
+    place in the queue - when it runs, run() returns and main_loop cleans up (`lost`)."""
+    evs = ['r:%d' % k for k in case.get('raises', [])]
+    marks = []
+    st = {'ready': [], 'closed': False, 'tclosed': False}
+
+    def one_iter():
+        cur, st['ready'] = st['ready'], []
+        for it in cur:
+            if it == 'task':
+                evs.append('s1')
+            elif it == 'wake':
+                evs.append('lost')
+                if not st['tclosed']:
+                    st['tclosed'] = True
+                    st['ready'].append('lostcb')
+            elif it == 'lostcb':
+                if not st['closed']:
+                    st['closed'] = True
+                    st['ready'].append('wake')
+            else:
+                evs.append('d:' + (it[1] or '-'))
+                if read_num(bytes.fromhex(it[1]), 0) is not None:
+                    st['ready'].append('task')
+    for act in case['script']:
+        if act[0] == 'dgram':
+            st['ready'].append(('d', act[1]))
+        elif act[0] == 'lost':
+            st['ready'].append('lostcb')
+        elif act[0] == 'shutdown':
+            evs.append('sd')
+            if not st['tclosed']:
+                st['tclosed'] = True
+                st['ready'].append('lostcb')
+            marks.append(len(evs) - 1)
+        elif act[0] == 'iter':
+            one_iter()
+            marks.append(len(evs) - 1)
+    for _ in range(6):
+        one_iter()
+    return evs, marks
+
+
+def run_utasks(case):
+    """the REAL main_loop over the REAL UdpFace (its protocol object gets the datagrams; the datagram endpoint is a stub
+    whose close() reports connection_lost on the next iteration, as a selector transport does)"""
+    from ndn.transport.udp_face import UdpFace
+    raises = set(case.get('raises', []))
+    with AppRig(case['fe']) as rig:
+        app, loop = rig.app, rig.loop
+        face = UdpFace()
+        app.face = face
+        orig = app._receive
+        created, entered, raised, cleanups = [], [], [], []
+
+        async def _cb(i, typ, buf):
+            entered.append(i)
+            if i in raises:
+                raised.append(i)
+                raise RuntimeError('scripted failure of a receive step')
+            await orig(typ, buf)
+
+        def cb(typ, buf):
+            created.append([typ, bytes(buf).hex()])
+            return _cb(len(created) - 1, typ, buf)
+        face.callback = cb
+        real_clean = app._clean_up
+
+        def clean():
+            cleanups.append(len(entered))
+            return real_clean()
+        app._clean_up = clean
+
+        class T:
+            closed = False
+
+            def sendto(self, d):
+                pass
+
+            def close(self):
+                if not self.closed:
+                    self.closed = True
+                    loop.call_soon(self.proto.connection_lost, None)
+
+        async def fake_endpoint(factory, **kw):
+            p = factory()
+            t = T()
+            t.proto = p
+            p.connection_made(t)
+            return t, p
+        loop.create_datagram_endpoint = fake_endpoint
+        main = loop.create_task(app.main_loop())
+        loop.settle(limit=2000)
+        counts = []
+        hung = False
+
+        def one_iter():
+            loop.call_soon(loop.stop)
+            loop.run_forever()
+        try:
+            for act in case['script']:
+                if act[0] == 'dgram':
+                    loop.call_soon(face.handler.datagram_received, bytes.fromhex(act[1]), ('127.0.0.1', 6363))
+                elif act[0] == 'lost':
+                    loop.call_soon(face.handler.connection_lost, None)
+                elif act[0] == 'shutdown':
+                    app.shutdown()
+                    counts.append([len(entered), len(created) - len(entered)])
+                elif act[0] == 'iter':
+                    one_iter()
+                    counts.append([len(entered), len(created) - len(entered)])
+            loop.settle(limit=2000)
+        except RuntimeError:
+            hung = True
+        if main.done() and not main.cancelled() and main.exception() is not None:
+            status = 'crashed:Other'
+        elif main.done():
+            status = 'shutdown'
+        else:
+            status = 'running'
+        import gc
+        gc.collect()
+        return {'tasks': True, 'udp': True, 'created': created, 'entered': entered, 'raised': raised, 'counts': counts,
+                'cleanup': cleanups[0] if cleanups else None, 'ncleanups': len(cleanups), 'status': status,
+                'running': bool(face.running), 'hung': hung, 'errors': [list(e) for e in loop.errors]}
+
 # ---------------------------------------------------------------------------------- implementation: reception
 def _comps(name):
     return '_'.join(bytes(c).hex() for c in name) if len(name) else '~'
@@ -1360,6 +1527,8 @@ def run_impl(case):
         return run_turn(case)
     if case['k'] == 'tasks':
         return run_tasks(case)
+    if case['k'] == 'utasks':
+        return run_utasks(case)
     return run_recv(case)
 
 
@@ -1446,6 +1615,8 @@ def model_line(case, impl):
         return 'C06 udp ' + (case['data'] or '-')
     if k == 'tasks':
         return 'C06 tasks ' + ' '.join(_tasks_plan(case)[0])
+    if k == 'utasks':
+        return 'C06 utasks ' + ' '.join(_utasks_plan(case)[0])
     if k == 'turn':
         return None          # same-turn endings are outside the reception model (live pending Interests): oracle only
     groups = {}
@@ -1488,10 +1659,16 @@ def model_obs(answer, case, impl):
         return {'got': pk, 'rem': '' if rem == '-' else rem, 'trace': trace, 'status': status}
     if k == 'udp':
         return answer
-    if k == 'tasks':
+    if k in ('tasks', 'utasks'):
         assert answer.startswith('ok '), answer
-        tr, proc, queue, status, running, errs, clean = answer[3:].split(' ; ')
-        trace = [[int(y) for y in x.split('/')] for x in tr.split(',')]
+        parts = answer[3:].split(' ; ')
+        tr, proc, queue, status, running, errs, clean = parts[:7]
+        trace = [] if tr == '.' else [[int(y) for y in x.split('/')] for x in tr.split(',')]
+        if k == 'utasks':
+            pk = lambda ps: [] if ps == '.' else [[int(x.split(':')[0]), '' if x.split(':')[1] == '-' else x.split(':')[1]] for x in ps.split(',')]
+            return {'counts': [trace[m] if m >= 0 else [0, 0] for m in _utasks_plan(case)[1]], 'processed': pk(proc), 'pending': pk(queue),
+                    'status': status, 'running': running == '1', 'raised': [] if errs == '.' else [int(x) for x in errs.split(',')],
+                    'cleanup': None if clean == '.' else int(clean), 'callback-errors': parts[7]}
         pk = lambda ps: [] if ps == '.' else [[int(x.split(':')[0]), '' if x.split(':')[1] == '-' else x.split(':')[1]] for x in ps.split(',')]
         return {'counts': [trace[m] for m in _tasks_plan(case)[1]], 'processed': pk(proc), 'pending': pk(queue), 'status': status,
                 'running': running == '1', 'raised': [] if errs == '.' else [int(x) for x in errs.split(',')],
@@ -1518,6 +1695,11 @@ def model_obs(answer, case, impl):
 def impl_obs(impl):
     if impl.get('tasks'):
         ent = set(impl['entered'])
+        if impl.get('udp'):
+            return {'counts': impl['counts'], 'processed': [impl['created'][i] for i in impl['entered']],
+                    'pending': [c for i, c in enumerate(impl['created']) if i not in ent], 'status': impl['status'],
+                    'running': impl['running'], 'raised': impl['raised'], 'cleanup': impl['cleanup'],
+                    'callback-errors': ','.join(cls_name(e[0]) for e in impl['errors'] if e[0] != 'RuntimeError') or '.'}
         return {'counts': impl['counts'], 'processed': [impl['created'][i] for i in impl['entered']],
                 'pending': [c for i, c in enumerate(impl['created']) if i not in ent], 'status': impl['status'],
                 'running': impl['running'], 'raised': impl['raised'], 'cleanup': impl['cleanup']}
@@ -1564,6 +1746,8 @@ def oracle(case, impl):
     k = case['k']
     if k == 'tasks':
         return _oracle_tasks(case, impl)
+    if k == 'utasks':
+        return _oracle_utasks(case, impl)
     if k == 'stream':
         s = _stream_bytes(case)
         if impl['hung']:
@@ -1722,8 +1906,34 @@ def _oracle_tasks(case, impl):
     return None
 
 
+def _oracle_utasks(case, impl):
+    """every datagram that starts with a readable Type number is handed over whole, once, in order of arrival; the others
+    are dropped; nothing ends with an unhandled error except the scripted failures"""
+    if impl['hung']:
+        return 'udp tasks: the loop did not come to rest after the input'
+    want = []
+    for a in case['script']:
+        if a[0] == 'dgram':
+            d = bytes.fromhex(a[1])
+            t = read_num(d, 0)
+            if t is not None:
+                want.append([t[0], a[1]])
+    ent = [impl['created'][i] for i in impl['entered']]
+    if impl['entered'] != list(range(len(impl['entered']))):
+        return 'udp tasks: the per-datagram tasks were not entered in the order in which they were created'
+    if len(impl['created']) != len(impl['entered']):
+        return f"udp tasks: {len(impl['created']) - len(impl['entered'])} datagram(s) were accepted but their receive step was never entered"
+    if ent != want:
+        return f'udp tasks: handed over {len(ent)} datagrams, expected exactly the {len(want)} that start with a Type number, in order'
+    bg = impl['errors']
+    if len(bg) != len(impl['raised']) or any(e[0] != 'RuntimeError' for e in bg):
+        other = [e[0] for e in bg if e[0] != 'RuntimeError']
+        return f"udp tasks: something ended with an unhandled error ({(other or ['?'])[0]})"
+    return None
+
+
 def nontrivial(case, impl):
-    if case['k'] == 'tasks':
+    if case['k'] in ('tasks', 'utasks'):
         return len(impl['created']) >= 1
     if case['k'] == 'stream':
         return bool(case['cuts'])
@@ -1736,7 +1946,16 @@ def nontrivial(case, impl):
 
 def tags(case, impl):
     t = ['kind:' + case['k']]
-    if case['k'] == 'tasks':
+    if case['k'] == 'utasks':
+        acts = [a[0] for a in case['script']]
+        t.append('udp-tasks:' + case['fe'])
+        t.append('udp-tasks-created:%d' % min(len(impl['created']), 6))
+        for a in ('lost', 'shutdown'):
+            if a in acts:
+                t.append('udp-tasks-' + a)
+        if len(impl['created']) < acts.count('dgram'):
+            t.append('udp-tasks-datagram-dropped')
+    elif case['k'] == 'tasks':
         acts = [a[0] for a in case['script']]
         t.append('tasks:' + case['fe'])
         t.append('tasks-created:%d' % min(len(impl['created']), 6))
